@@ -42,14 +42,8 @@ MODELLED_NOT_VERIFIED = [
     "C20: FIXSchema.validate restricted to the helper's messages is hand-modelled over GENERATED dictionary tables "
     "(Model/TesterDict.lean, Generated/TesterDict.lean from tests/FIX44.xml via the real parser); UTCTIMESTAMP not modelled",
     "C20: FIXTester wiring (mock sockets, nested drain, reply) is hand-modelled over the session model (Model/TesterWire.lean)",
-    "tools/gen_tester.py (dictionary translator; run by harness/c20.py at import until hooked into gen_lean.py)",
+    "tools/gen_tester.py (dictionary translator, run by tools/gen_lean.py)",
 ]
-
-# ---------------------------------------------------------------------------------------------
-# translator of this family (until tools/gen_lean.py calls it): runs BEFORE the build
-# ---------------------------------------------------------------------------------------------
-_rc, _out, _ = C.run([C.PY, os.path.join(C.VERIF, "tools", "gen_tester.py")], env=C.env_for_repo())
-GEN_OK, GEN_LOG = (_rc == 0), _out.strip()
 
 TRANSACT = "20240102-03:04:05.678"
 _SCHEMA = None
@@ -134,7 +128,9 @@ def make_order(v):
 
 
 def tstate_tokens(t):
-    return " ".join([str(t["octr"]), str(t["ectr"]), str(len(t["reg"]))] + [hx(k) for k in t["reg"]])
+    oids = t.get("oids", {})
+    return " ".join([str(t["octr"]), str(t["ectr"]), str(len(t["reg"]))] + [hx(k) for k in t["reg"]]
+                    + [str(len(oids))] + [x for r, k in oids.items() for x in (hx(r), str(k))])
 
 
 def args_tokens(a):
@@ -149,9 +145,12 @@ def msg_tokens(m):
 
 
 def canon_tstate(text):
-    """model / impl tester state with the registered keys as a sorted set"""
+    """model / impl tester state with the registered keys and the OrderID map as sorted sets"""
     t = text.split(" ")
-    return " ".join(t[:2] + sorted(set(t[3:])))
+    n = int(t[2])
+    reg, rest = t[3:3 + n], t[4 + n:]
+    pairs = sorted(rest[i] + "=" + rest[i + 1] for i in range(0, len(rest), 2))
+    return " ".join(t[:2] + sorted(set(reg)) + ["|"] + pairs)
 
 
 # ---------------------------------------------------------------------------------------------
@@ -247,13 +246,15 @@ def make_tester(t, o, use_schema):
 
     ft = FIXTester(schema=schema() if use_schema else None)
     ft._order_id, ft._exec_id = t["octr"], t["ectr"]
+    ft._order_ids = dict(t.get("oids", {}))
     for k in t["reg"]:
         ft.registered_orders[k] = o
     return ft
 
 
 def tstate_of(ft):
-    return {"octr": ft._order_id, "ectr": ft._exec_id, "reg": list(ft.registered_orders.keys())}
+    return {"octr": ft._order_id, "ectr": ft._exec_id, "reg": list(ft.registered_orders.keys()),
+            "oids": dict(ft._order_ids)}
 
 
 def impl_fab(case):
@@ -302,7 +303,7 @@ def impl_cxlrej(case):
     from asyncfix.protocol.common import FOrdStatus
 
     o = make_order(case["order"])
-    ft = make_tester({"octr": 0, "ectr": 10000, "reg": []}, o, case["schema"])
+    ft = make_tester({"octr": 0, "ectr": 10000, "reg": [], "oids": {}}, o, case["schema"])
     mt, tags = case["req"]
     req = FIXMessage(mt, dict(tags))
     try:
@@ -337,9 +338,9 @@ def patched_time():
 
 
 def next_clord(v):
-    m = re.match(r"^(.+)--(\d+)$", v["clord"], re.M)
-    root = m[1] if m else v["clord"]
-    return f"{root}--{v['cnt'] + 1}"
+    from asyncfix.protocol.order_single import FIXNewOrderSingle
+
+    return f"{FIXNewOrderSingle.clord_root(v['clord'])}--{v['cnt'] + 1}"
 
 
 def impl_request(case):
@@ -616,6 +617,11 @@ def build_cases(ctx, n_flows, n_fab):
             v = mutate_view(rng, v)
             label += "+mutated"
         t = dict(t)
+        if rng.random() < 0.08:
+            v = dict(v, oid=None)  # no report processed yet: the OrderID comes from the tester's map
+            label += "+no-oid"
+        if rng.random() < 0.05:
+            t["oids"] = {}
         if rng.random() < 0.06:
             t["reg"] = []
         if rng.random() < 0.3:
@@ -649,9 +655,6 @@ def correspondence(ctx):
 
     def inc(k):
         branches[k] = branches.get(k, 0) + 1
-
-    if not GEN_OK:
-        dis.append({"input": "tools/gen_tester.py", "model": "Generated/TesterDict.lean", "impl": GEN_LOG[-600:]})
 
     # ---- (a1) execution reports ------------------------------------------------------------
     views, cases = build_cases(ctx, ctx.n(60, 600), ctx.n(2000, 20000))
@@ -900,7 +903,7 @@ def oracle_sequences(ctx, failures, stats, n):
                                  "input": {"kind": "seq", "views": [view_of(x) for x in orders], "script": script}, "observed": eid})
             last = eid
             if i in ids and ids[i][0] != m[37]:
-                sig = "C20-orderid-unstable-before-first-processing" if not ids[i][1] and not had_oid else "C20-orderid-unstable"
+                sig = "C20-orderid-unstable"
                 failures.append({"signature": sig, "what": f"two reports for one order carry OrderID {ids[i][0]} and {m[37]}",
                                  "input": {"kind": "seq", "views": [view_of(x) for x in orders], "script": script},
                                  "observed": [ids[i][0], m[37]]})
@@ -918,14 +921,14 @@ WITNESS_FOREIGN = {
     "kind": "fab", "label": "witness", "schema": False, "members": True,
     "order": {"clord": "c1--1", "orig": None, "oid": None, "qty": 10.0, "price": 100.0, "cum": 0.0, "leaves": 0.0,
               "avg": None, "status": "A", "side": "1", "ticker": "T", "ord_type": "2", "account": "000000", "cnt": 1},
-    "tester": {"octr": 0, "ectr": 10000, "reg": ["c1--1"]},
+    "tester": {"octr": 0, "ectr": 10000, "reg": ["c1--1"], "oids": {}},
     "args": {"clord": "zzz", "exec": "0", "status": "0", "cum": 0.0, "leaves": 10.0, "last": None, "price": None,
              "oqty": None, "orig": None, "avg": 0.0},
 }
 
 
 def run_orderid_witness():
-    """D27: two reports fabricated before the first is processed"""
+    """D27 (repaired by e62ed38): two reports fabricated before the first is processed"""
     from asyncfix import FIXTester
     from asyncfix.protocol.common import FExecType as X, FOrdSide, FOrdStatus as St
     from asyncfix.protocol.order_single import FIXNewOrderSingle
@@ -946,7 +949,7 @@ def oracle(ctx, disagreements, broken):
     # witnesses of the open findings, always
     a, b = run_orderid_witness()
     if a != b:
-        failures.append({"signature": "C20-orderid-unstable-before-first-processing",
+        failures.append({"signature": "C20-orderid-unstable",
                          "what": f"two reports fabricated before the first is processed carry OrderID {a} and {b}",
                          "input": WITNESS_ORDERID, "observed": [a, b]})
     oracle_fab(ctx, [WITNESS_FOREIGN], failures, stats)
